@@ -10,6 +10,7 @@ CONSTANTS
   ChunkPts = {}
   ResetChoices <- AsIsOnly
   TamperTags <- AllTags
+  CacheChoices = {"none"}
   Concurrent = FALSE
   RecordHist = TRUE
 INVARIANT EmitUnsound
